@@ -157,7 +157,9 @@ mod misc {
             // - How many times the runtime has looped around this full shuffle
             let seq_path_str = Object::get_path(seq_container.as_ref()).to_string();
             let sequence_hash: i32 = seq_path_str.chars().map(|c| c as i32).sum();
-            let random_seed = sequence_hash + loop_index + self.get_state().story_seed;
+            let random_seed = sequence_hash
+                .wrapping_add(loop_index)
+                .wrapping_add(self.get_state().story_seed);
 
             #[cfg(bladeink_verif)]
             crate::verif::note_seed(1, random_seed);
